@@ -5,7 +5,7 @@ HERE = os.path.dirname(os.path.dirname(os.path.abspath(__file__)))
 
 CLAIMED = {
  'C13': dict(
-   text="Function-level proofs (Verus on verbatim-extracted code) along the whole push-down path: analyze_range is exact (Some((k,r)) iff the condition holds exactly for the keys in r); a range is pushed only for the primary key with bounds of the key's type, any other scan condition is evaluated by a filter on the scan output; the range refers to the primary-key column wherever it stands (block index searched, position in the scanned list); start_rowid never skips a row with key >= bound for every sparse index and key multiset; at row level a row stays visible iff it was visible and its key lies in the range, for every bound kind, and the scan ends early only when the first key of a batch is beyond the upper bound. RowSetIterator::new opens all column iterators of a seeked scan at the same start row; every RowSet gets the caller's key range whatever the scan does to its own copy of the options. Bounded: N-sqlrange runs 79 predicates x 4 projections on 5 table shapes x layouts against a full-scan oracle. Partial: sortedness of a RowSet by its key and DataValue ordering within one type are assumptions.",
+   text="Function-level proofs (Verus on verbatim-extracted code) along the whole push-down path: analyze_range is exact (Some((k,r)) iff the condition holds exactly for the keys in r); a range is pushed only for the primary key with bounds of the key's type, any other scan condition is evaluated by a filter on the scan output; the range refers to the primary-key column wherever it stands (block index searched, position in the scanned list); start_rowid never skips a row with key >= bound for every sparse index and key multiset; at row level a row stays visible iff it was visible and its key lies in the range, for every bound kind, and the scan ends early only when the first key of a batch is beyond the upper bound. RowSetIterator::new opens all column iterators of a seeked scan at the same start row; every RowSet gets the key range of the caller whatever the scan does to its own copy of the options. Bounded: N-sqlrange runs 79 predicates x 4 projections on 5 table shapes x layouts against a full-scan oracle. Partial: sortedness of a RowSet by its key and DataValue ordering within one type are assumptions.",
    note="Assumes: a RowSet is sorted by its key column (A-sortedrowset); DataValue's derived ordering is the value ordering within one type (A-dvorder); index entries record the key at their first row (U-finishblock); i32::decode is a function of the bytes; iterator-adapter searches replaced by contracted shims (A-position).",
    technique='Verus contracts + loop invariants on mechanically extracted functions / statement ranges (planner analysis, executor builder, start_rowid, RowSetIterator) + one bounded native SQL search', design='5 (C13), 4.1 U-startrow'),
  'C18': dict(
@@ -50,7 +50,7 @@ CLAIMED.update({
    note='Assumes: generic code verified at T=i32; BitVec modelled as Seq<bool> (A-bitvec); A-fw axioms backed by the Kani harnesses; rows per block fit usize.',
    technique='Kani loop-free harnesses in place (codecs) + Verus contracts on extracted block builders/iterators/array builders + bounded native column search', design='5 (C06), 4.1'),
  'C07': dict(
-   text='Function-level proofs: the row address used by DELETE packs/unpacks exactly for every (rowset < 2^31, row) and is injective (Kani, in-place function contracts); the hidden row-handler column emits exactly the handles of the scanned rows; the merge heap, visible-row search and pick loop used by compaction/sorted scans; delete-vector bits survive the key-range filter; DV files load every record; boot restarts DV / row-set id generators above every logged id. RowSetIterator::new starts every column iterator, the row-handler column included, at the same row and gives the row-handler column the RowSet's total row count. Bounded: N-sqlhistory checks DELETE counts and table contents after every step of sampled insert/delete/reopen histories. Partial (thin): DeleteVector::apply_to is outside both verifiers; compaction commit is I/O; compaction concurrent with DML is not covered.',
+   text='Function-level proofs: the row address used by DELETE packs/unpacks exactly for every (rowset < 2^31, row) and is injective (Kani, in-place function contracts); the hidden row-handler column emits exactly the handles of the scanned rows; the merge heap, visible-row search and pick loop used by compaction/sorted scans; delete-vector bits survive the key-range filter; DV files load every record; boot restarts DV / row-set id generators above every logged id. RowSetIterator::new starts every column iterator, the row-handler column included, at the same row and gives the row-handler column the total row count of the RowSet. Bounded: N-sqlhistory checks DELETE counts and table contents after every step of sampled insert/delete/reopen histories. Partial (thin): DeleteVector::apply_to is outside both verifiers; compaction commit is I/O; compaction concurrent with DML is not covered.',
    note="Assumes rowset ids < 2^31 (precondition surfaced by the contract; ids are allocated from 0 by a counter).",
    technique='Kani function contracts in place + Verus contracts on extracted iterators + one bounded native history search', design='5 (C07), 4.1-4.2'),
 })
